@@ -237,3 +237,326 @@ Proof.
         destruct (Z_lt_le_dec k (b1 - 1)) as [Lk2|Gk2]; [|rewrite (O' k) by lia; apply HM1; lia].
         apply (R' M); [|lia]. intros j Hj. apply HM1. lia.
 Qed.
+
+(* ---------------------------------------------------------------- medianOfThree *)
+Lemma swap_if_less_ok2 : forall d i j, 0 <= i < len d -> 0 <= j < len d ->
+  exists d', swap_if_less d i j = Ret d' /\ len d' = len d /\
+    (forall k, 0 <= k -> k <> i -> k <> j -> get d' k = get d k) /\
+    get d' j <= get d' i /\
+    ((get d' i = get d i /\ get d' j = get d j) \/ (get d' i = get d j /\ get d' j = get d i)).
+Proof.
+  intros d i j Hi Hj. unfold swap_if_less. rewrite (rd_ok d i Hi), (rd_ok d j Hj). cbn [bind].
+  destruct (Z.ltb_spec (get d i) (get d j)) as [L|G].
+  - assert (Nij : i <> j) by (intros ->; lia).
+    destruct (swap_ok d i j Hi Hj) as [d' [E [Ln Gd]]]. exists d'. split; [exact E|]. split; [exact Ln|].
+    assert (Gi : get d' i = get d j).
+    { rewrite Gd by lia. destruct (Z.eqb_spec i j); [lia|]. destruct (Z.eqb_spec i i); [reflexivity|lia]. }
+    assert (Gj : get d' j = get d i).
+    { rewrite Gd by lia. destruct (Z.eqb_spec j j); [reflexivity|lia]. }
+    split; [|split; [lia|right; split; assumption]].
+    intros k Hk N1 N2. rewrite Gd by exact Hk.
+    destruct (Z.eqb_spec k j); [lia|]. destruct (Z.eqb_spec k i); [lia|]. reflexivity.
+  - exists d. split; [reflexivity|]. split; [reflexivity|]. split; [intros; reflexivity|].
+    split; [lia|left; split; reflexivity].
+Qed.
+
+Lemma median_of_three_ok : forall d m1 m0 m2,
+  0 <= m1 < len d -> 0 <= m0 < len d -> 0 <= m2 < len d ->
+  exists d', median_of_three d m1 m0 m2 = Ret d' /\ len d' = len d /\
+    (forall k, 0 <= k -> k <> m0 -> k <> m1 -> k <> m2 -> get d' k = get d k) /\
+    (m0 <> m1 -> m1 <> m2 -> m0 <> m2 -> get d' m0 <= get d' m1 <= get d' m2).
+Proof.
+  intros d m1 m0 m2 H1 H0 H2. unfold median_of_three.
+  destruct (swap_if_less_ok2 d m1 m0 H1 H0) as [d1 [E1 [L1 [F1 [O1 _]]]]].
+  rewrite E1. cbn [bind]. rewrite (rd_ok d1 m2) by lia. rewrite (rd_ok d1 m1) by lia. cbn [bind].
+  destruct (Z.ltb_spec (get d1 m2) (get d1 m1)) as [L|G].
+  - destruct (swap_ok d1 m2 m1) as [d2 [E2 [L2 G2]]]; [lia|lia|].
+    rewrite E2. cbn [bind].
+    destruct (swap_if_less_ok2 d2 m1 m0) as [d3 [E3 [L3 [F3 [O3 V3]]]]]; [lia|lia|].
+    exists d3. split; [exact E3|]. split; [lia|]. split.
+    + intros k Hk N0 N1 N2. rewrite F3 by assumption. rewrite G2 by exact Hk.
+      destruct (Z.eqb_spec k m1); [lia|]. destruct (Z.eqb_spec k m2); [lia|]. apply F1; assumption.
+    + intros D01 D12 D02. split; [exact O3|].
+      assert (A2 : get d3 m2 = get d1 m1).
+      { rewrite F3 by lia. rewrite G2 by lia.
+        destruct (Z.eqb_spec m2 m1); [lia|]. destruct (Z.eqb_spec m2 m2); [reflexivity|lia]. }
+      assert (A1 : get d2 m1 = get d1 m2).
+      { rewrite G2 by lia. destruct (Z.eqb_spec m1 m1); [reflexivity|lia]. }
+      assert (A0 : get d2 m0 = get d1 m0).
+      { rewrite G2 by lia. destruct (Z.eqb_spec m0 m1); [lia|]. destruct (Z.eqb_spec m0 m2); [lia|]. reflexivity. }
+      destruct V3 as [[V _]|[V _]]; lia.
+  - exists d1. split; [reflexivity|]. split; [exact L1|]. split.
+    + intros k Hk N0 N1 N2. apply F1; assumption.
+    + intros D01 D12 D02. lia.
+Qed.
+
+(* ---------------------------------------------------------------- doPivot in stages *)
+Definition ninther (d0 : list Z) (lo hi : Z) : res (list Z) :=
+  let m := (lo + hi) / 2 in
+  if hi - lo >? 40 then
+    let s := Z.quot (hi - lo) 8 in
+    do e1 <- median_of_three d0 lo (lo + s) (lo + 2 * s);
+    do e2 <- median_of_three e1 m (m - s) (m + s);
+    median_of_three e2 (hi - 1) (hi - 1 - s) (hi - 1 - 2 * s)
+  else Ret d0.
+
+Definition dups_block (lo hi m : Z) (d3 : list Z) (b c : Z) : res (list Z * Z * Z * bool) :=
+  let pivot := lo in
+  do x <- rd d3 (hi - 1); do p <- rd d3 pivot;
+  do (dc, dups1) <- (if negb (p <? x)
+                     then do e <- swap d3 c (hi - 1); Ret (e, c + 1, 1)
+                     else Ret (d3, c, 0));
+  let '(d4, c1) := dc in
+  do p1 <- rd d4 pivot; do y <- rd d4 (b - 1);
+  let '(b1, dups2) := if negb (y <? p1) then (b - 1, dups1 + 1) else (b, dups1) in
+  do p2 <- rd d4 pivot; do z <- rd d4 m;
+  do (db, dups3) <- (if negb (z <? p2)
+                     then do e <- swap d4 m (b1 - 1); Ret (e, b1 - 1, dups2 + 1)
+                     else Ret (d4, b1, dups2));
+  let '(d5, b2) := db in
+  Ret (d5, b2, c1, dups3 >? 1).
+
+Definition stage4 (lo hi m : Z) (d3 : list Z) (b c : Z) : res (list Z * Z * Z * bool) :=
+  let protect0 := hi - c <? 5 in
+  if negb protect0 && (hi - c <? Z.quot (hi - lo) 4) then dups_block lo hi m d3 b c
+  else Ret (d3, b, c, protect0).
+
+Definition stage5 (lo hi a : Z) (r : list Z * Z * Z * bool) : res (list Z * Z * Z) :=
+  let '(st2, protect) := r in
+  let '(d6, b3, c2) := st2 in
+  do (st3, b4) <-
+    (if (protect : bool) then
+       do (st4, b5) <- protect_loop (Z.to_nat (hi - lo)) d6 lo a b3;
+       let '(d7, _) := st4 in Ret (d7, b5)
+     else Ret (d6, b3));
+  do d9 <- swap st3 lo (b4 - 1);
+  Ret (d9, b4 - 1, c2).
+
+Lemma do_pivot_eq : forall d0 lo hi, do_pivot d0 lo hi =
+  let m := (lo + hi) / 2 in
+  do d1 <- ninther d0 lo hi;
+  do d2 <- median_of_three d1 lo m (hi - 1);
+  do a <- scan_lt (Z.to_nat (hi - lo)) d2 lo (lo + 1) (hi - 1);
+  do (st, c) <- part_loop (Z.to_nat (hi - lo)) d2 lo a (hi - 1);
+  let '(d3, b) := st in
+  do r <- stage4 lo hi m d3 b c;
+  stage5 lo hi a r.
+Proof. reflexivity. Qed.
+
+Lemma ninther_ok : forall d lo hi, 0 <= lo -> hi <= len d -> hi - lo > 12 ->
+  exists d1, ninther d lo hi = Ret d1 /\ len d1 = len d /\ same_out d d1 lo hi.
+Proof.
+  intros d lo hi Hlo Hhi Hsz. unfold ninther. cbv zeta.
+  destruct (Z.gtb_spec (hi - lo) 40) as [G|G].
+  2:{ exists d. split; [reflexivity|]. split; [reflexivity|]. intros k _ _; reflexivity. }
+  rewrite Z.quot_div_nonneg by lia.
+  pose proof (Z.div_mod (hi - lo) 8 ltac:(lia)) as Hs. pose proof (Z.mod_pos_bound (hi - lo) 8 ltac:(lia)) as Hs'.
+  pose proof (Z.div_mod (lo + hi) 2 ltac:(lia)) as Hm. pose proof (Z.mod_pos_bound (lo + hi) 2 ltac:(lia)) as Hm'.
+  set (s := (hi - lo) / 8) in *. set (m := (lo + hi) / 2) in *.
+  destruct (median_of_three_ok d lo (lo + s) (lo + 2 * s)) as [e1 [E1 [L1 [F1 _]]]]; try lia.
+  rewrite E1. cbn [bind].
+  destruct (median_of_three_ok e1 m (m - s) (m + s)) as [e2 [E2 [L2 [F2 _]]]]; try lia.
+  rewrite E2. cbn [bind].
+  destruct (median_of_three_ok e2 (hi - 1) (hi - 1 - s) (hi - 1 - 2 * s)) as [e3 [E3 [L3 [F3 _]]]]; try lia.
+  exists e3. split; [exact E3|]. split; [lia|].
+  intros k Hk Ho. rewrite F3 by lia. rewrite F2 by lia. apply F1; lia.
+Qed.
+
+(* the state after the partition loop and after the optional "duplicates" block:
+   cells lo+1..a-1 < pv, a..b-1 <= pv, b..c-1 = pv, c..hi-1 >= pv, data[lo] = pv *)
+Definition pstate (d : list Z) (lo hi a b c pv : Z) : Prop :=
+  lo + 1 <= a /\ a <= b /\ b <= c /\ c <= hi /\ get d lo = pv /\
+  (forall k, lo + 1 <= k < a -> get d k < pv) /\
+  (forall k, a <= k < b -> get d k <= pv) /\
+  (forall k, b <= k < c -> get d k = pv) /\
+  (forall k, c <= k < hi -> pv <= get d k).
+
+Lemma dups_block_ok : forall lo hi m d3 a c pv,
+  0 <= lo -> hi <= len d3 -> 2 * m <= lo + hi < 2 * m + 2 ->
+  5 <= hi - c -> hi - c < (hi - lo) / 4 -> c <= hi - 1 ->
+  pstate d3 lo hi a c c pv ->
+  exists d6 b3 c2 protect, dups_block lo hi m d3 c c = Ret (d6, b3, c2, protect) /\
+    len d6 = len d3 /\ same_out d3 d6 lo hi /\ pstate d6 lo hi a b3 c2 pv.
+Proof.
+  intros lo hi m d3 a c pv Hlo Hhi Hm H5 Hq Hc1 [Pa [Pab [_ [_ [Plo [Plt [Ple [_ Pge]]]]]]]].
+  pose proof (Z.div_mod (hi - lo) 4 ltac:(lia)) as Hq4. pose proof (Z.mod_pos_bound (hi - lo) 4 ltac:(lia)) as Hq4'.
+  set (q := (hi - lo) / 4) in *.
+  unfold dups_block. cbv zeta. rewrite (rd_ok d3 (hi - 1)) by lia. rewrite (rd_ok d3 lo) by lia. cbn [bind].
+  rewrite Plo.
+  (* step A: an element equal to the pivot at the right end moves next to the middle *)
+  assert (HA : exists d4 c1 dups1,
+    (if negb (pv <? get d3 (hi - 1)) then do e <- swap d3 c (hi - 1); Ret (e, c + 1, 1) else Ret (d3, c, 0))
+    = Ret (d4, c1, dups1) /\ len d4 = len d3 /\ c <= c1 <= c + 1 /\
+    (forall k, 0 <= k -> k < c \/ hi <= k -> get d4 k = get d3 k) /\
+    (forall k, c <= k < c1 -> get d4 k = pv) /\ (forall k, c1 <= k < hi -> pv <= get d4 k)).
+  { destruct (Z.ltb_spec pv (get d3 (hi - 1))) as [L|G]; cbn [negb].
+    - exists d3, c, 0. split; [reflexivity|]. split; [reflexivity|]. split; [lia|].
+      split; [intros; reflexivity|]. split; [intros; lia|exact Pge].
+    - assert (Ehi : get d3 (hi - 1) = pv) by (specialize (Pge (hi - 1) ltac:(lia)); lia).
+      destruct (swap_ok d3 c (hi - 1)) as [e [Ee [Le Ge]]]; [lia|lia|].
+      rewrite Ee. cbn [bind]. exists e, (c + 1), 1. split; [reflexivity|]. split; [exact Le|]. split; [lia|].
+      split; [|split].
+      + intros k Hk Ho. rewrite Ge by exact Hk.
+        destruct (Z.eqb_spec k (hi - 1)); [lia|]. destruct (Z.eqb_spec k c); [lia|]. reflexivity.
+      + intros k Hk. assert (k = c) by lia. subst k. rewrite Ge by lia.
+        destruct (Z.eqb_spec c (hi - 1)); [lia|]. destruct (Z.eqb_spec c c); [exact Ehi|lia].
+      + intros k Hk. rewrite Ge by lia.
+        destruct (Z.eqb_spec k (hi - 1)); [apply Pge; lia|]. destruct (Z.eqb_spec k c); [lia|]. apply Pge; lia. }
+  destruct HA as [d4 [c1 [dups1 [EA [L4 [Bc1 [F4 [Eq4 Ge4]]]]]]]]. rewrite EA. cbn [bind].
+  rewrite (rd_ok d4 lo) by lia. rewrite (rd_ok d4 (c - 1)) by lia. cbn [bind].
+  rewrite (F4 lo) by lia. rewrite (F4 (c - 1)) by lia. rewrite Plo.
+  (* step B: the last cell of the left part *)
+  assert (HB : exists b1 dups2,
+    (if negb (get d3 (c - 1) <? pv) then (c - 1, dups1 + 1) else (c, dups1)) = (b1, dups2) /\
+    a <= b1 <= c /\ c - 1 <= b1 /\ (forall k, b1 <= k < c -> get d3 k = pv)).
+  { destruct (Z.ltb_spec (get d3 (c - 1)) pv) as [L|G]; cbn [negb].
+    - exists c, dups1. split; [reflexivity|]. split; [lia|]. split; [lia|]. intros; lia.
+    - assert (a <= c - 1).
+      { destruct (Z_lt_le_dec (c - 1) a) as [Lt|]; [|assumption]. exfalso.
+        destruct (Z.eq_dec (c - 1) lo) as [El|Nl]; [lia|].
+        specialize (Plt (c - 1) ltac:(lia)). lia. }
+      exists (c - 1), (dups1 + 1). split; [reflexivity|]. split; [lia|]. split; [lia|].
+      intros k Hk. assert (k = c - 1) by lia. subst k. specialize (Ple (c - 1) ltac:(lia)). lia. }
+  destruct HB as [b1 [dups2 [EB [Bb1 [Bb1' Eq3]]]]]. rewrite EB. cbv beta iota.
+  rewrite (rd_ok d4 m) by lia. cbn [bind]. rewrite (F4 m) by lia.
+  (* step C: the middle cell *)
+  destruct (Z.ltb_spec (get d3 m) pv) as [L|G]; cbn [negb bind].
+  - exists d4, b1, c1, (dups2 >? 1). split; [reflexivity|]. split; [exact L4|]. split.
+    + intros k Hk Ho. apply F4; lia.
+    + unfold pstate. split; [lia|]. split; [lia|]. split; [lia|]. split; [lia|].
+      split; [rewrite F4 by lia; exact Plo|].
+      split; [intros k Hk; rewrite F4 by lia; apply Plt; lia|].
+      split; [intros k Hk; rewrite F4 by lia; apply Ple; lia|].
+      split; [|exact Ge4].
+      intros k Hk. destruct (Z_lt_le_dec k c); [rewrite F4 by lia; apply Eq3; lia|apply Eq4; lia].
+  - assert (Hma : a <= m).
+    { destruct (Z_lt_le_dec m a) as [Lt|]; [|assumption]. exfalso. specialize (Plt m ltac:(lia)). lia. }
+    assert (Hmb : m <= b1 - 1) by lia.
+    assert (Em : get d3 m = pv) by (specialize (Ple m ltac:(lia)); lia).
+    destruct (swap_ok d4 m (b1 - 1)) as [e [Ee [Le Ge]]]; [lia|lia|].
+    rewrite Ee. cbn [bind].
+    exists e, (b1 - 1), c1, (dups2 + 1 >? 1). split; [reflexivity|]. split; [lia|]. split.
+    + intros k Hk Ho. rewrite Ge by exact Hk.
+      destruct (Z.eqb_spec k (b1 - 1)); [lia|]. destruct (Z.eqb_spec k m); [lia|]. apply F4; lia.
+    + assert (Gk : forall k, 0 <= k -> k <> m -> k <> b1 - 1 -> get e k = get d4 k).
+      { intros k Hk N1 N2. rewrite Ge by exact Hk.
+        destruct (Z.eqb_spec k (b1 - 1)); [lia|]. destruct (Z.eqb_spec k m); [lia|]. reflexivity. }
+      assert (Gb : get e (b1 - 1) = pv).
+      { rewrite Ge by lia. destruct (Z.eqb_spec (b1 - 1) (b1 - 1)); [|lia]. rewrite F4 by lia. exact Em. }
+      assert (Gm : get e m <= pv).
+      { destruct (Z.eq_dec m (b1 - 1)) as [->|N]; [lia|]. rewrite Ge by lia.
+        destruct (Z.eqb_spec m (b1 - 1)); [lia|]. destruct (Z.eqb_spec m m); [|lia].
+        rewrite F4 by lia. apply Ple. lia. }
+      unfold pstate. split; [lia|]. split; [lia|]. split; [lia|]. split; [lia|].
+      split; [rewrite Gk by lia; rewrite F4 by lia; exact Plo|].
+      split; [intros k Hk; rewrite Gk by lia; rewrite F4 by lia; apply Plt; lia|].
+      split; [|split].
+      * intros k Hk. destruct (Z.eq_dec k m) as [->|N]; [exact Gm|].
+        rewrite Gk by lia. rewrite F4 by lia. apply Ple. lia.
+      * intros k Hk. destruct (Z.eq_dec k (b1 - 1)) as [->|N]; [exact Gb|].
+        rewrite Gk by lia.
+        destruct (Z_lt_le_dec k c); [rewrite F4 by lia; apply Eq3; lia|apply Eq4; lia].
+      * intros k Hk. rewrite Gk by lia. apply Ge4. lia.
+Qed.
+
+Lemma stage4_ok : forall lo hi m d3 a c pv,
+  0 <= lo -> hi <= len d3 -> hi - lo > 12 -> 2 * m <= lo + hi < 2 * m + 2 -> c <= hi - 1 ->
+  pstate d3 lo hi a c c pv ->
+  exists d6 b3 c2 protect, stage4 lo hi m d3 c c = Ret (d6, b3, c2, protect) /\
+    len d6 = len d3 /\ same_out d3 d6 lo hi /\ pstate d6 lo hi a b3 c2 pv.
+Proof.
+  intros lo hi m d3 a c pv Hlo Hhi Hsz Hm Hc1 P. unfold stage4. cbv zeta.
+  destruct (Z.ltb_spec (hi - c) 5) as [L5|G5]; cbn [negb andb].
+  - exists d3, c, c, true. split; [reflexivity|]. split; [reflexivity|]. split; [intros k _ _; reflexivity|exact P].
+  - rewrite Z.quot_div_nonneg by lia.
+    destruct (Z.ltb_spec (hi - c) ((hi - lo) / 4)) as [Lq|Gq].
+    + apply dups_block_ok; assumption || lia.
+    + exists d3, c, c, false. split; [reflexivity|]. split; [reflexivity|]. split; [intros k _ _; reflexivity|exact P].
+Qed.
+
+Lemma stage5_ok : forall lo hi a d6 b3 c2 protect pv,
+  0 <= lo -> hi <= len d6 -> pstate d6 lo hi a b3 c2 pv ->
+  exists d9 mlo, stage5 lo hi a (d6, b3, c2, protect) = Ret (d9, mlo, c2) /\
+    len d9 = len d6 /\ same_out d6 d9 lo hi /\ lo <= mlo < c2 /\ c2 <= hi /\
+    (forall k, lo <= k < mlo -> get d9 k <= pv) /\
+    (forall k, mlo <= k < c2 -> get d9 k = pv) /\
+    (forall k, c2 <= k < hi -> pv <= get d9 k).
+Proof.
+  intros lo hi a d6 b3 c2 protect pv Hlo Hhi [Pa [Pab [Pbc [Pc [Plo [Plt [Ple [Peq Pge]]]]]]]].
+  unfold stage5. cbv beta iota.
+  (* the optional protect loop *)
+  assert (H5 : exists d8 b4,
+    (if protect then
+       do (st4, b5) <- protect_loop (Z.to_nat (hi - lo)) d6 lo a b3;
+       let '(d7, _) := st4 in Ret (d7, b5)
+     else Ret (d6, b3)) = Ret (d8, b4) /\ len d8 = len d6 /\ same_out d6 d8 lo hi /\
+    pstate d8 lo hi a b4 c2 pv).
+  { destruct protect.
+    - destruct (protect_loop_ok (Z.to_nat (hi - lo)) d6 lo a b3) as [d7 [mm [E7 [L7 [B7 [O7 [P7 [Q7 R7]]]]]]]]; try lia.
+      rewrite E7. cbn [bind]. exists d7, mm. split; [reflexivity|]. split; [exact L7|]. split.
+      + intros k Hk Ho. apply O7; lia.
+      + rewrite Plo in P7, Q7. unfold pstate. split; [lia|]. split; [lia|]. split; [lia|]. split; [lia|].
+        split; [rewrite O7 by lia; exact Plo|].
+        split; [intros k Hk; rewrite O7 by lia; apply Plt; lia|].
+        split; [intros k Hk; specialize (P7 k Hk); lia|].
+        split.
+        * intros k Hk. destruct (Z_lt_le_dec k b3) as [Lk|Gk].
+          -- specialize (Q7 k ltac:(lia)). specialize (R7 pv Ple k ltac:(lia)). lia.
+          -- rewrite O7 by lia. apply Peq. lia.
+        * intros k Hk. rewrite O7 by lia. apply Pge. lia.
+    - exists d6, b3. split; [reflexivity|]. split; [reflexivity|]. split; [intros k _ _; reflexivity|].
+      unfold pstate. tauto. }
+  destruct H5 as [d8 [b4 [E5 [L8 [O8 [Qa [Qab [Qbc [Qc [Qlo [Qlt [Qle [Qeq Qge]]]]]]]]]]]]].
+  rewrite E5. cbn [bind].
+  destruct (swap_ok d8 lo (b4 - 1)) as [d9 [E9 [L9 G9]]]; [lia|lia|].
+  rewrite E9. cbn [bind]. exists d9, (b4 - 1). split; [reflexivity|]. split; [lia|]. split.
+  - intros k Hk Ho. rewrite G9 by exact Hk.
+    destruct (Z.eqb_spec k (b4 - 1)); [lia|]. destruct (Z.eqb_spec k lo); [lia|]. apply O8; assumption.
+  - split; [lia|]. split; [lia|].
+    assert (Hb : get d8 (b4 - 1) <= pv).
+    { destruct (Z.eq_dec (b4 - 1) lo) as [->|N]; [lia|].
+      destruct (Z_lt_le_dec (b4 - 1) a); [specialize (Qlt (b4 - 1) ltac:(lia)); lia|apply Qle; lia]. }
+    split; [|split].
+    + intros k Hk. rewrite G9 by lia. destruct (Z.eqb_spec k (b4 - 1)); [lia|].
+      destruct (Z.eqb_spec k lo); [exact Hb|].
+      destruct (Z_lt_le_dec k a); [specialize (Qlt k ltac:(lia)); lia|apply Qle; lia].
+    + intros k Hk. rewrite G9 by lia. destruct (Z.eqb_spec k (b4 - 1)); [exact Qlo|].
+      destruct (Z.eqb_spec k lo); [lia|]. apply Qeq. lia.
+    + intros k Hk. rewrite G9 by lia. destruct (Z.eqb_spec k (b4 - 1)); [lia|].
+      destruct (Z.eqb_spec k lo); [lia|]. apply Qge. lia.
+Qed.
+
+Theorem do_pivot_ok : forall d lo hi, 0 <= lo -> hi <= len d -> hi - lo > 12 ->
+  exists d' mlo mhi pv, do_pivot d lo hi = Ret (d', mlo, mhi) /\
+    len d' = len d /\ same_out d d' lo hi /\ lo <= mlo < mhi /\ mhi <= hi /\
+    (forall k, lo <= k < mlo -> get d' k <= pv) /\
+    (forall k, mlo <= k < mhi -> get d' k = pv) /\
+    (forall k, mhi <= k < hi -> pv <= get d' k).
+Proof.
+  intros d lo hi Hlo Hhi Hsz. rewrite do_pivot_eq. cbv zeta.
+  pose proof (Z.div_mod (lo + hi) 2 ltac:(lia)) as Hm. pose proof (Z.mod_pos_bound (lo + hi) 2 ltac:(lia)) as Hm'.
+  set (m := (lo + hi) / 2) in *.
+  destruct (ninther_ok d lo hi Hlo Hhi Hsz) as [d1 [E1 [L1 O1]]]. rewrite E1. cbn [bind].
+  destruct (median_of_three_ok d1 lo m (hi - 1)) as [d2 [E2 [L2 [F2 S2]]]]; try lia.
+  rewrite E2. cbn [bind]. specialize (S2 ltac:(lia) ltac:(lia) ltac:(lia)).
+  set (pv := get d2 lo) in *.
+  destruct (scan_lt_ok (Z.to_nat (hi - lo)) d2 lo (lo + 1) (hi - 1)) as [a [Ea [Ba [Pa _]]]]; try lia.
+  rewrite Ea. cbn [bind].
+  destruct (part_loop_ok (Z.to_nat (hi - lo)) d2 lo a (hi - 1)) as [d3 [c [E3 [L3 [Bc [O3 [P3 Q3]]]]]]]; try lia.
+  rewrite E3. cbn [bind]. fold pv in Pa, P3, Q3.
+  assert (PS : pstate d3 lo hi a c c pv).
+  { unfold pstate. split; [lia|]. split; [lia|]. split; [lia|]. split; [lia|].
+    split; [rewrite O3 by lia; reflexivity|].
+    split; [intros k Hk; rewrite O3 by lia; apply Pa; lia|].
+    split; [exact P3|]. split; [intros; lia|].
+    intros k Hk. destruct (Z.eq_dec k (hi - 1)) as [->|N].
+    - rewrite O3 by lia. lia.
+    - specialize (Q3 k ltac:(lia)). lia. }
+  destruct (stage4_ok lo hi m d3 a c pv) as [d6 [b3 [c2 [protect [E4 [L4 [O4 PS4]]]]]]]; try lia; [exact PS|].
+  rewrite E4. cbn [bind].
+  destruct (stage5_ok lo hi a d6 b3 c2 protect pv) as [d9 [mlo [E5 [L5 [O5 [B5 [C5 [R1 [R2 R3]]]]]]]]]; try lia; [exact PS4|].
+  rewrite E5. exists d9, mlo, c2, pv. split; [reflexivity|]. split; [lia|]. split.
+  - intros k Hk Ho. rewrite O5 by assumption. rewrite O4 by assumption.
+    rewrite O3 by lia. rewrite F2 by lia. apply O1; assumption.
+  - split; [lia|]. split; [lia|]. split; [exact R1|]. split; [exact R2|exact R3].
+Qed.
